@@ -122,7 +122,9 @@ struct World<S: ZeroCopyConnection> {
 
 impl<S: ZeroCopyConnection> World<S> {
     fn shm_count(&self) -> usize {
-        vcore::util::shm_entries_containing(&format!("{}{}", prefix_str(), self.name_str)).len()
+        // object name = prefix + type hash (base64url) + '_' + name + suffix
+        let tail = format!("_{}.", self.name_str);
+        vcore::util::shm_entries_containing(&prefix_str()).iter().filter(|n| n.contains(&tail)).count()
     }
 
     /// oracle (2) and the standing parts of (3)/(4) after every step
@@ -452,5 +454,5 @@ pub fn seq_parts(ctx: &mut Ctx) {
         run_seq,
     );
     let strat = (0u8..2, 0u8..BASES.len() as u8, proptest::collection::vec(op_strategy(), 1..=12)).prop_map(|(storage, base, ops)| SeqCase { storage, base, ops });
-    ctx.proptest("seq.random", ctx.scale(40_000, 1_200_000), strat, run_seq);
+    ctx.proptest("seq.random", ctx.scale(24_000, 700_000), strat, run_seq);
 }
